@@ -53,6 +53,8 @@ def run(ctx: Ctx, env):
     from .c06 import check_token_actions
     from .c15 import _check_chain
     check_token_actions(ctx, env, "R0.literal-values-as-written")
+    from .c19 import check_py_val_case
+    check_py_val_case(ctx, env, "R0.literal-values-independent-of-case")
     _check_chain(ctx, env, "sqlalchemy.apply_odata_query", "odata_query.sqlalchemy.shorthand", "apply_odata_query", "AstToSqlAlchemyOrmVisitor")
     _check_chain(ctx, env, "sqlalchemy.apply_odata_core", "odata_query.sqlalchemy.shorthand", "apply_odata_core", "AstToSqlAlchemyCoreVisitor")
 
